@@ -201,6 +201,30 @@ func vgScenario(k int) (t *vgTopo, src, dst int, ups, cores, downs []*seg.PathSe
 		t.parentChild(1, 7, 2, 2)
 		downs = append(downs, t.segment("down", []vgEntry{{as: 0, eg: 0x0203}, {as: 1, in: 0x0101, eg: 7}, {as: 2, in: 2}}, &lives))
 		return t, 0, 2, nil, nil, downs, lives
+	case 5:
+		// up C1(1)->S(0), core C3(3)->C2(2)->C1(1) (3 ASes), down C3(3)->D(4)
+		t = vgNewTopo(5)
+		t.parentChild(1, 0x0101, 0, 2)
+		t.coreLink(2, 0x1001, 1, 3)
+		t.coreLink(3, 0x00FF, 2, 0x0F00)
+		t.parentChild(3, 0x0203, 4, 5)
+		ups = append(ups, t.segment("up", []vgEntry{{as: 1, eg: 0x0101}, {as: 0, in: 2}}, &lives))
+		cores = append(cores, t.segment("core", []vgEntry{{as: 3, eg: 0x00FF}, {as: 2, in: 0x0F00, eg: 0x1001}, {as: 1, in: 3}}, &lives))
+		downs = append(downs, t.segment("down", []vgEntry{{as: 3, eg: 0x0203}, {as: 4, in: 5}}, &lives))
+		return t, 0, 4, ups, cores, downs, lives
+	case 6:
+		// two up segments over different parents and one down segment: S(0) below X(1) and Y(3), both
+		// below C(2); D(4) below Y(3): several combinations incl. a shortcut at Y
+		t = vgNewTopo(5)
+		t.parentChild(2, 0x0203, 1, 0x0101)
+		t.parentChild(1, 7, 0, 2)
+		t.parentChild(2, 0x0204, 3, 0x0301)
+		t.parentChild(3, 9, 0, 0x0A00)
+		t.parentChild(3, 11, 4, 5)
+		ups = append(ups, t.segment("up", []vgEntry{{as: 2, eg: 0x0203}, {as: 1, in: 0x0101, eg: 7}, {as: 0, in: 2}}, &lives))
+		ups = append(ups, t.segment("up2", []vgEntry{{as: 2, eg: 0x0204}, {as: 3, in: 0x0301, eg: 9}, {as: 0, in: 0x0A00}}, &lives))
+		downs = append(downs, t.segment("down", []vgEntry{{as: 2, eg: 0x0204}, {as: 3, in: 0x0301, eg: 11}, {as: 4, in: 5}}, &lives))
+		return t, 0, 4, ups, nil, downs, lives
 	}
 	panic("unknown scenario")
 }
